@@ -160,7 +160,9 @@ TEXT["C15"] = dict(ref="DESIGN.md 4 C15", technique="TLC model checking of the r
     "Leg 1 (MCWire.tla): TLC checks prefix-closed FIFO delivery in both directions, limit agreement and that an ended connection stays ended over every sequence of 5-6 wire events, both roles; "
     "WireConc.tla (the send and the receive goroutine writing header and payload of their frames to one connection, one action per write call): FramesIntact, InOrder, termination; the deviation "
     "without mutual exclusion must be caught. Conformance (a'): the write schedules TLC enumerates from WireConc.tla are imposed on the real peer through a gated connection (each Write call waits for "
-    "the harness's grant); the client must read whole frames, messages in order, PONGs in order (Wire!Race). Conformance (a): "
+    "the harness's grant); the client must read whole frames, messages in order, PONGs in order (Wire!Race). Conformance (c): spec/Srv.tla specifies the router's network front ends as a connecting "
+    "client sees them (origin rule, subprotocol selection, serializer and websocket frame type per subprotocol, the listener's receive limit in the rawsocket handshake); GenSrv.tla scenarios run "
+    "against real WebsocketServer / RawSocketServer listeners on the loopback interface and are validated against TraceSrv.tla. Conformance (a): "
     "TLC -simulate of GenWire.tla generates octet-level scenarios (sizes at limit-1, limit, limit+1 for several negotiated limits, header and payload in one or two writes, lists that only resemble "
     "messages) executed against transport.AcceptRawSocket over an in-memory pipe; TLC validates octets read, messages delivered and connection end against TraceWire.tla. Conformance (b), "
     "interchangeability: routing scenarios of the core family (pub/sub, RPC, cancel, meta API, event history, testaments, disclosure) run with every network session attached over rawsocket or "
@@ -175,7 +177,7 @@ NOT_APPLICABLE = {}
 ENGINES = [
     {"name": "codec", "path": "/verif/tools/fam_codec.py; spec/Codec.tla; harness/codec_test.go",
      "serves_properties": ["C14"], "kind_free_text": "TLC-enumerated message / non-message vectors run through the three serializers, results validated by TLC"},
-    {"name": "wire", "path": "/verif/tools/fam_wire.py; spec/Wire.tla MCWire.tla WireConc.tla GenWire.tla TraceWire.tla Trace.tla; harness/wire.go wire_test.go",
+    {"name": "wire", "path": "/verif/tools/fam_wire.py; spec/Wire.tla MCWire.tla WireConc.tla GenWire.tla TraceWire.tla Srv.tla GenSrv.tla TraceSrv.tla Trace.tla; harness/wire.go wire_test.go srv_test.go",
      "serves_properties": ["C15"], "kind_free_text": "TLC model checking and scenario generation for the rawsocket wire, octet-level executor, routing scenarios over network transports, TLC trace validation"},
     {"name": "client", "path": "/verif/tools/fam_client.py; spec/Cli.tla GenCli.tla TraceCli.tla CliConc.tla Hostile.tla; harness/client_test.go",
      "serves_properties": ["C16", "C17"], "kind_free_text": "TLC model checking of the PlusCal client skeleton, TLC script generation, execution against the real client with a scripted router under synctest, TLC trace validation"},
